@@ -539,6 +539,183 @@ def transferFrom (q : List (Rat × Rat) → Rat × Rat → Nat) (src : Incon) (s
           | .error e => .error e
           | .ok ps => .ok (ps.foldl (fun d p => dset d p.1 p.2) atmPart)
 
+/-! ### t2incon.transfer_from on an object heap (for the clause "without altering the source")
+
+  The functional model above cannot say that the source object is left alone.  Here the same
+  method is modelled imperatively: `t2blockincon` objects live in a heap (object id = position),
+  a `t2incon` is a dict from names to object ids, `copy()` allocates, and
+  `self[key] = value` performs the one mutation the method makes: `value.block = key`. -/
+
+structure Obj where
+  block : Str
+  val : IncVal
+  deriving Repr, Inhabited, DecidableEq
+
+abbrev Heap := List Obj
+
+/-- a `t2incon`: block name → id of its `t2blockincon`, in `_blocklist` order -/
+abbrev InconH := Dict Nat
+
+/-- a new object; its id is the old heap size -/
+def Heap.alloc (h : Heap) (o : Obj) : Heap × Nat := (h ++ [o], h.length)
+
+def modifyAt (h : Heap) (id : Nat) (f : Obj → Obj) : Heap :=
+  match h, id with
+  | [], _ => []
+  | o :: r, 0 => f o :: r
+  | o :: r, n + 1 => o :: modifyAt r n f
+
+/-- `self[key] = value` with `value` the object `id`:
+    `if value.block != key: value.block = key; self.add_incon(value)` -/
+def setItem (st : Heap × InconH) (key : Str) (id : Nat) : Heap × InconH :=
+  (modifyAt st.1 id (fun o => if o.block != key then { o with block := key } else o), dset st.2 key id)
+
+/-- `self[key] = copy(obj)` -/
+def assignCopy (st : Heap × InconH) (key : Str) (id : Nat) : Except Exc (Heap × InconH) :=
+  match st.1[id]? with
+  | none => .error .generic
+  | some o =>
+    let (h1, c) := st.1.alloc o
+    .ok (setItem (h1, st.2) key c)
+
+/-- `self[key] = t2blockincon(vals)` (a fresh object, block name '') -/
+def assignNew (st : Heap × InconH) (key : Str) (v : IncVal) : Heap × InconH :=
+  let (h1, c) := st.1.alloc ⟨[], v⟩
+  setItem (h1, st.2) key c
+
+/-- `sourceinc[0]` : id of the first object -/
+def firstId (src : InconH) : Except Exc Nat :=
+  match src with
+  | [] => .error .indexError
+  | p :: _ => .ok p.2
+
+/-- `sourceinc[name].variable` -/
+def varsOf (h : Heap) (src : InconH) (name : Str) : Except Exc (List Rat) :=
+  match dget src name with
+  | .error e => .error e
+  | .ok id =>
+    match h[id]? with
+    | none => .error .generic
+    | some o => .ok o.val.vars
+
+def avgStepH (h : Heap) (sgeo : Geo) (src : InconH) (acc : List Rat) (c : Col) : Except Exc (List Rat) :=
+  match sgeo.lay0 with
+  | .error e => .error e
+  | .ok s0 =>
+    match blockName sgeo.conv s0.name c.name with
+    | .error e => .error e
+    | .ok blk =>
+      match varsOf h src blk with
+      | .error e => .error e
+      | .ok v => addVec acc v
+
+/-- loop body, target type 1 / source type 0 -/
+def stepBroadcast (geo : Geo) (src : InconH) (st : Heap × InconH) (c : Col) : Except Exc (Heap × InconH) :=
+  match geo.lay0 with
+  | .error e => .error e
+  | .ok g0 =>
+    match blockName geo.conv g0.name c.name with
+    | .error e => .error e
+    | .ok blk =>
+      match firstId src with
+      | .error e => .error e
+      | .ok id => assignCopy st blk id
+
+/-- loop body, target type 1 / source type 1 -/
+def stepPerColumn (sgeo geo : Geo) (src : InconH) (colmapping : Dict Str) (st : Heap × InconH) (c : Col) :
+    Except Exc (Heap × InconH) :=
+  match dget colmapping c.name with
+  | .error e => .error e
+  | .ok mappedcol =>
+    match sgeo.lay0 with
+    | .error e => .error e
+    | .ok s0 =>
+      match blockName sgeo.conv s0.name mappedcol with
+      | .error e => .error e
+      | .ok old =>
+        match geo.lay0 with
+        | .error e => .error e
+        | .ok g0 =>
+          match blockName geo.conv g0.name c.name with
+          | .error e => .error e
+          | .ok blk =>
+            match dget src old with
+            | .error e => .error e
+            | .ok id => assignCopy st blk id
+
+/-- loop body, target type 1 / source without atmosphere; `dflt` is the id of `default_atm_incons` -/
+def stepDefault (geo : Geo) (dflt : Nat) (st : Heap × InconH) (c : Col) : Except Exc (Heap × InconH) :=
+  match geo.lay0 with
+  | .error e => .error e
+  | .ok g0 =>
+    match blockName geo.conv g0.name c.name with
+    | .error e => .error e
+    | .ok blk => assignCopy st blk dflt
+
+/-- loop body, underground blocks -/
+def stepUnder (src : InconH) (mapping : Dict Str) (st : Heap × InconH) (blk : Str) : Except Exc (Heap × InconH) :=
+  match dget mapping blk with
+  | .error e => .error e
+  | .ok sb =>
+    match dget src sb with
+    | .error e => .error e
+    | .ok id => assignCopy st blk id
+
+/-- the atmosphere part; `dflt` is the id of `default_atm_incons` -/
+def transferAtmH (src : InconH) (sgeo geo : Geo) (colmapping : Dict Str) (dflt : Nat) (st : Heap × InconH) :
+    Except Exc (Heap × InconH) :=
+  if geo.atm = 0 then
+    match geo.lay0 with
+    | .error e => .error e
+    | .ok g0 =>
+      match blockName geo.conv g0.name (atmColName geo.conv) with
+      | .error e => .error e
+      | .ok atmblk =>
+        if sgeo.atm = 0 then
+          match firstId src with
+          | .error e => .error e
+          | .ok id => assignCopy st atmblk id
+        else if sgeo.atm = 1 then
+          match firstId src with
+          | .error e => .error e
+          | .ok id =>
+            match st.1[id]? with
+            | none => .error .generic
+            | some first =>
+              match foldE (avgStepH st.1 sgeo src) (List.replicate first.val.vars.length 0) sgeo.cols with
+              | .error e => .error e
+              | .ok total =>
+                if sgeo.cols.isEmpty then .error .zeroDivision
+                else .ok (assignNew st atmblk ⟨total.map (· / (sgeo.cols.length : Rat)), none, none⟩)
+        else assignCopy st atmblk dflt
+  else if geo.atm = 1 then
+    foldE (if sgeo.atm = 0 then stepBroadcast geo src
+           else if sgeo.atm = 1 then stepPerColumn sgeo geo src colmapping
+           else stepDefault geo dflt) st geo.cols
+  else .ok st
+
+/-- `t2incon.transfer_from` on the heap: `h` holds (at least) the source's objects, `src` is the
+    source `t2incon`; returns the new heap and the new contents of `self` (after `self.empty()`) -/
+def transferFromH (q : List (Rat × Rat) → Rat × Rat → Nat) (h : Heap) (src : InconH) (sgeo geo : Geo)
+    (mapping colmapping : Dict Str) : Except Exc (Heap × InconH) :=
+  match effectiveMaps q sgeo geo mapping colmapping with
+  | .error e => .error e
+  | .ok (mapping, colmapping) =>
+    -- default_atm_incons = t2blockincon([1.013e5, 20.])
+    let (h1, dflt) := h.alloc ⟨[], defaultAtm⟩
+    match transferAtmH src sgeo geo colmapping dflt (h1, []) with
+    | .error e => .error e
+    | .ok st =>
+      match geo.blockNameList with
+      | .error e => .error e
+      | .ok names =>
+        match geo.numAtmBlocks with
+        | .error e => .error e
+        | .ok na => foldE (stepUnder src mapping) st (names.drop na)
+
+/-- the contents of a `t2incon` read through the heap: (name in the dict, the object) -/
+def readInc (h : Heap) (inc : InconH) : List (Str × Option Obj) := inc.map (fun p => (p.1, h[p.2]?))
+
 /-! ### t2data: rock types, generators, print block, incon dict -/
 
 /-- `source.grid.block[mapping[blk.name]].rocktype.name` -/
